@@ -173,3 +173,56 @@ func (g *Grammar) EachOneDeep(ty *Ty, yield func(*Term) bool) bool {
 	}
 	return true
 }
+
+// EachTwoDeep streams the depth-2 terms of type ty in which exactly TWO operands of the outermost
+// constructor (of arity <= maxArity) are depth-1 terms built by a production and all others are
+// atoms: every composition f(…, g(atoms…), …, h(atoms…), …).
+func (g *Grammar) EachTwoDeep(ty *Ty, maxArity int, yield func(*Term) bool) bool {
+	c := ty.Canon()
+	for _, p := range g.Prods {
+		if p.Ret.Canon() != c || len(p.Params) > maxArity {
+			continue
+		}
+		for p1 := 0; p1 < len(p.Params); p1++ {
+			for p2 := p1 + 1; p2 < len(p.Params); p2++ {
+				lists := make([][]*Term, len(p.Params))
+				empty := false
+				for i, pt := range p.Params {
+					if i == p1 || i == p2 {
+						lists[i] = g.Terms(pt, 1)[len(g.Atoms[pt.Canon()]):]
+					} else {
+						lists[i] = g.Atoms[pt.Canon()]
+					}
+					if len(lists[i]) == 0 {
+						empty = true
+					}
+				}
+				if empty {
+					continue
+				}
+				idx := make([]int, len(lists))
+				for {
+					args := make([]*Term, len(lists))
+					for i := range lists {
+						args[i] = lists[i][idx[i]]
+					}
+					if !yield(p.Build(args)) {
+						return false
+					}
+					j := len(idx) - 1
+					for ; j >= 0; j-- {
+						idx[j]++
+						if idx[j] < len(lists[j]) {
+							break
+						}
+						idx[j] = 0
+					}
+					if j < 0 {
+						break
+					}
+				}
+			}
+		}
+	}
+	return true
+}
